@@ -3,7 +3,7 @@
 Grammar (from the language description):
   expr   := unary (binop unary)*          7 precedence levels, all left-associative
   unary  := ('!'|'-') unary | '(' expr ')' | NAME '(' [expr (',' expr)*] ')' | NUMBER | STRING | NAME | '[' bracket-name ']'
-  NUMBER := digits ['.' digits*] ['e' ('+'|'-') digits]
+  NUMBER := ['+'] digits ['.' digits*] ['e' ('+'|'-') digits]
   NAME   := [A-Za-z_]\\w*      (call position needs >= 2 characters; 1-character callee is outside the checked vocabulary)
 """
 import re
@@ -94,6 +94,11 @@ class _P:
         m = _NUM.match(self.t, j)
         if m:
             return {'number': float(m.group(0))}, m.end()
+        if c == '+':
+            # a plus-signed number literal (the sign must touch the digits); a minus sign is always the unary operator
+            m = _NUM.match(self.t, j + 1)
+            if m:
+                return {'number': float(m.group(0))}, m.end()
         if c in '\'"':
             k = j + 1
             out = []
